@@ -76,6 +76,14 @@ CLAIMED = {
             "Composition of three extracted tables: the serializer's escaped-character set and per-character escape text, the lexer's string-body/escape tables and the decoder's table - every character the lexer cannot take raw is escaped and every escape decodes back to the same character; plus the presence rules of can_be_block_string and the triple-quote constants shared with the parser.",
             "Decides the table-level inverse relation and the block-string gate; the round trip over all Unicode strings (indentation arithmetic, line joining) is not decided.",
             "pattern-set evaluation of closures/match arms, format-template decoding, const comparison over rustc HIR", False),
+    "C05": ("other",
+            "Table- and shape-level necessary conditions of grammar conformance: keyword->production dispatch tables against the node kinds the productions open and against graphql.ungram / cst::Definition; four-way agreement on the 19 directive locations; one-or-more list productions cannot pass from opening to closing delimiter without an item or an error.",
+            "Verdict equivalence with a reference parser is not decided (not decidable by this family); only the named tables and shapes are.",
+            "string-pattern table extraction (HIR) + must-pass-through over MIR CFG + sibling table comparison", False),
+    "C28": ("other",
+            "The scalar coercion table (built-in names, JSON predicates consulted per name, bounds) and the structural shape of null/list/input-object/variable-map handling, extracted from the type-checked match arms and if-chains.",
+            "Clause-level: numeric edge values and serde_json_bytes' predicates are not decided.",
+            "decision-table extraction over HIR match arms and if-chains", False),
 }
 
 NOT_APPLICABLE = {
